@@ -76,6 +76,14 @@ let conn = function
           if (not wfailed) && gone > 0 then pf "mtcp.peer-gone.spurious" "PeerDisappeared reported although every write succeeded";
           tag (if wfailed then (if !broken && ws <> [] && wdata = [] then "send-on-broken" else "send-cut") else
                  (if List.length wdata = 3 then "send-3-writes" else "send-2-writes"))
+        | [Atom "sendbad"; err; gone] ->
+          (* Send of a bundle that cannot be serialised: an error, nothing on the connection *)
+          let err = s_bool err and gone = s_int gone in
+          op_gone := !op_gone + gone;
+          if ws <> [] then pf "mtcp.unserialisable.bytes-written" (Printf.sprintf "op %d: Send of a bundle that cannot be serialised wrote on the connection" opno);
+          if not err then pf "mtcp.unserialisable.success" (Printf.sprintf "op %d: Send of a bundle that cannot be serialised returned success" opno);
+          if gone <> (if err then 1 else 0) then mism (Printf.sprintf "op %d: PeerDisappeared after a serialisation error: impl %d" opno gone);
+          tag "send-unserialisable"
         | [Atom "ka"; err] ->
           let err = s_bool err in
           if !broken then (if not err || wdata <> [] then mism "keep-alive on a broken connection went out")
@@ -97,7 +105,16 @@ let conn = function
     end;
     if total_gone < !op_gone + tick_gone then mism "PeerDisappeared count";
     if (not tick_break) && total_gone > !op_gone then pf "mtcp.peer-gone.spurious" "more PeerDisappeared statuses than failed operations";
-    if !transport_failed then
+    (* every successful write of a Send belongs to the frame of its bundle (frame, then the one-byte probe) *)
+    let malformed = ref false in
+    List.iteri (fun i ob -> match lst ob with
+        | [Atom "send"; bi; _; _; _; _; _] ->
+          let written = List.concat (List.map (fun (_, d, _) -> d) (writes_of (i + 1))) in
+          if not (is_prefix written (mtcp_frame bundles.(s_int bi) @ probe)) then malformed := true
+        | _ -> ()) (lst obs);
+    if !malformed then
+      pf "mtcp.send.foreign-bytes" "the bytes a Send wrote on the connection are not (a prefix of) the frame of its bundle followed by the probe"
+    else if !transport_failed then
       pf "mtcp.server.connection-closed" "a write failed that the harness did not script: the server ended the connection on a well-formed stream";
     (* ---- server ---- *)
     let wire = List.concat (List.map (fun (_, d, _) -> d) log) in
@@ -127,6 +144,21 @@ let tcp = function
     if !res = [] then [Ok_ ["tcp"]] else !res
   | _ -> raise (Bad "tcp case")
 
+(* one client object over several connections (Close + Start again, as cla.Manager.Restart does):
+   every epoch is judged like a connection of its own - nothing of an earlier epoch / an earlier
+   failed Send may show on the wire, every Send that returned nil delivered exactly its bundle *)
+let reuse eps =
+  let tags = ref [] and bad = ref [] in
+  List.iteri (fun i e ->
+      let pre = Printf.sprintf "connection %d of the client object: " (i + 1) in
+      List.iter (function
+          | Ok_ ts -> List.iter (fun t -> if not (List.mem t !tags) then tags := t :: !tags) ts
+          | Mismatch d -> bad := Mismatch (pre ^ d) :: !bad
+          | Propfail (k, d) -> bad := Propfail ((if i > 0 then "mtcp.reuse." ^ (String.sub k 5 (String.length k - 5)) else k), pre ^ d) :: !bad)
+        (conn (lst e))) eps;
+  if !bad = [] then [Ok_ (List.rev !tags)] else List.rev !bad
+
 let () =
+  register "C12mtcp" "reuse" reuse;
   register "C12mtcp" "conn" conn;
   register "C12mtcp" "tcp" tcp
